@@ -57,22 +57,13 @@ def has_nul(tree):
     return f(tree)
 
 
-def reported(c):
-    """the characters exact_errors reports (Interp.bad_char)"""
-    o = ord(c)
-    return (1 <= o <= 8) or o == 0x0B or (0x0E <= o <= 0x1F) or (0x7F <= o <= 0x9F) or (0xFDD0 <= o <= 0xFDEF) \
-        or (o & 0xFFFE) == 0xFFFE
-
-
 def lex_exempt(tree):
     """parsed trees the character conditions [lex_hyps] of C17_roundtrip_through_tokenizer_partial are known not
-    to cover (Props/C17.v): a reported character in an element or attribute name, an empty doctype name, a PI
-    data starting with white space"""
+    to cover (Props/C17.v): an empty doctype name, a PI data starting with white space"""
     def f(nodes):
         for n in nodes:
             if n[0] == "E":
-                names = [(n[1] or "") + n[3]] + [(a[0] or "") + a[2] for a in n[4]]
-                if any(reported(c) for nm in names for c in nm) or f(n[5]):
+                if f(n[5]):
                     return True
             elif n[0] == "D" and n[1] == "":
                 return True
